@@ -36,7 +36,10 @@ def render(rng, seq, bs, can_clone, outlen, op0):
         elif sym == 'r':
             steps.append('r.%d' % cur)
         elif sym == 'rr':
-            steps.append(('rr.%d.%d' % (cur, outlen)) if op0 == 'mac' else 'r.%d.%d' % (cur, outlen))
+            n = outlen
+            if op0 == 'mac' and outlen == 16 and not can_clone_is_hmac(steps) and rng.below(3) == 0:
+                n = rng.choice([17, 32, 48])          # Poly1305 documents "at least 16 bytes"
+            steps.append(('rr.%d.%d' % (cur, n)) if op0 == 'mac' else 'r.%d.%d' % (cur, outlen))
         elif sym == 'x':
             steps.append('x.%d' % cur)
         elif sym == 'xi':
@@ -54,6 +57,13 @@ def render(rng, seq, bs, can_clone, outlen, op0):
             else:
                 steps.append('x.%d' % cur)
     return steps
+
+
+def can_clone_is_hmac(_steps):
+    return not POLY[0]
+
+
+POLY = [False]      # set by gen() while it renders Poly1305 histories (only Poly1305 accepts longer result buffers)
 
 
 def alphabet(bs):
@@ -94,6 +104,7 @@ def gen(tier, seed):
     depth = 4 if thorough else 3
     nrand = 1000 if thorough else 200
     for ty, keyspec, bs, can_clone in MACS:
+        POLY[0] = ty == 'poly1305'
         outlen = 16 if ty == 'poly1305' else (o.digest_fn(ty[5:])[2] if ty.startswith('hmac') else int(ty.split(':')[1]))
         def key():
             if keyspec == 32:
@@ -111,6 +122,7 @@ def gen(tier, seed):
     # (a) the legacy BLAKE2 objects also have their own reset() / reset_with_key(): mixed with the trait resets; (b) a result() refused for a
     # wrong-sized buffer, caught, and the same object used again
     for ty, keyspec, bs, can_clone in MACS:
+        POLY[0] = ty == 'poly1305'
         outlen = 16 if ty == 'poly1305' else (o.digest_fn(ty[5:])[2] if ty.startswith('hmac') else int(ty.split(':')[1]))
         legacy_b2 = ty.startswith(('b2bmac', 'b2smac'))
         for _ in range((600 if thorough else 120) if legacy_b2 else (200 if thorough else 40)):
@@ -131,6 +143,7 @@ def gen(tier, seed):
                     seq.append('c')
             k = rng.data(32) if keyspec == 32 else rng.data(rng.choice([1, 16, 32]))
             yield 'mac %s %s %s' % (ty, k, ' '.join(render(rng, seq + ['r', 'x', ('i', rng.choice([0, 5, bs])), 'r'], bs, can_clone, outlen, 'mac')))
+    POLY[0] = False
     for d in DIGS:
         _, bs, outlen = o.digest_fn(d)
         legacy_b2 = d.startswith('blake2')
